@@ -336,7 +336,11 @@ def _c16_shapes(tier="quick"):
                         out.append(("s1b/%d" % k, "%s:\n%s" % (head, _ind(body))))
     if tier != "quick":
         # nesting 3: compounds whose bodies are (a sample of) level-1 compounds
-        inner = [s for i, s in enumerate(level1) if i % 7 == 0]
+        # a seventh of the level-1 compounds, chosen by content (not by position: extending the family must not
+        # shift the sample, or the ids of known findings would no longer be enumerated)
+        import hashlib
+
+        inner = [s for s in level1 if int(hashlib.sha1(s.encode()).hexdigest(), 16) % 7 == 0]
         level2 = list(_c16_compounds(inner, ["cond()", "True", "7000 > 7001"], ["seq()", "(1, 2)"], with_else=False))
         out += [("s2/%d" % i, s) for i, s in enumerate(level2)]
     return out
